@@ -1105,6 +1105,40 @@ def gen_score_loop():
 GENERATORS["ScoreLoop.lean"] = gen_score_loop
 
 
+def gen_worker():
+    """src/worker.rs: the comparison closure handed to par_quicksort (C06's order clause)"""
+    src = strip_comments(read("src/worker.rs"))
+    m = re.search(r"par_quicksort\(\s*&mut self\.matches,\s*\|match1, match2\| \{(.*?)\},\s*&self\.canceled,", src, re.S)
+    if not m:
+        raise TranslateError("the comparison closure of the worker's sort was not found")
+    body = m.group(1)
+    # the two lengths: total haystack length of the item a match refers to
+    lens = re.findall(r"let (item[12]) = &?self\.items\.get_unchecked\((match[12])\.idx\);", body)
+    sums = re.findall(r"let (len[12])(?:: u32)? = (item[12])\s*\.matcher_columns\s*\.iter\(\)\s*\.map\(\|haystack\| haystack\.len\(\) as u32\)\s*\.sum\(\);", body)
+    if sorted(lens) != [("item1", "match1"), ("item2", "match2")] or sorted(sums) != [("len1", "item1"), ("len2", "item2")]:
+        raise TranslateError(f"the tie-breaker lengths of the sort comparison have an unexpected shape: {lens} {sums}")
+    body = re.sub(r"let item[12] = &?self\.items\.get_unchecked\(match[12]\.idx\);", "", body)
+    body = re.sub(r"let len[12](?:: u32)? = item[12]\s*\.matcher_columns\s*\.iter\(\)\s*\.map\(\|haystack\| haystack\.len\(\) as u32\)\s*\.sum\(\);", "", body, flags=re.S)
+    body = body.replace("u32::MAX", "4294967295")
+    structs = {"Match": {"score": "u32", "idx": "u32"}}
+    msrc = strip_comments(read("src/lib.rs"))
+    mm = re.search(r"pub struct Match \{(.*?)\}", msrc, re.S)
+    if not mm or sorted(re.findall(r"pub (\w+): (\w+)", mm.group(1))) != [("idx", "u32"), ("score", "u32")]:
+        raise TranslateError("struct Match is not {score: u32, idx: u32}")
+    text, ty = translate_fn("{" + body + "}", [("match1", "Match"), ("match2", "Match"), ("len1", "u32"), ("len2", "u32")], structs, {})
+    out = ["/- GENERATED by translator/translate.py from src/worker.rs and src/lib.rs — do not edit -/",
+           "namespace NucleoVerif.Gen.Worker", "",
+           "/-- `pub struct Match` -/", "structure Match where", "  score : Nat", "  idx : Nat", "deriving DecidableEq, Repr", "",
+           "/-- the closure `|match1, match2| ..` handed to `par_quicksort` in `Worker::run`; `len1` / `len2`: the sum of the lengths of the "
+           "matcher columns of the item `match1.idx` / `match2.idx` refers to (read through `get_unchecked`) -/",
+           f"def match_less (match1 match2 : Match) (len1 len2 : Nat) : Bool :=\n  {text}", "",
+           "end NucleoVerif.Gen.Worker"]
+    return "\n".join(out) + "\n"
+
+
+GENERATORS["Worker.lean"] = gen_worker
+
+
 def rust_struct_fields(src, name):
     m = re.search(r"struct\s+%s\s*\{(.*?)\}" % name, src, re.S)
     if m:
